@@ -194,6 +194,7 @@ def load_single(env, args=(), **kw):
     """m=1 runtime (synchronous: a share is the value)."""
     mods = import_mpyc(['--no-log', *args])
     sys.modules.update(mods)          # m=1 harnesses use the copy as the live package
+    kw.setdefault('table', {})
     return install(env, mods, 0, **kw)
 
 
